@@ -17,9 +17,11 @@ import (
 	"path/filepath"
 	"sort"
 	"strings"
+	"testing"
 
 	"github.com/specterops/dawgs/graph"
 	"github.com/specterops/dawgs/retriever"
+	"github.com/specterops/dawgs/verifsim/simrt"
 
 	"verifharness/simdb"
 )
@@ -597,3 +599,39 @@ func CheckDump(dir string, src DBSpec, loadBatch int, allowCheckpoint bool) stri
 	}
 	return ""
 }
+
+// UnderSim runs fn as the single client task of one simulated run, so that any goroutine the
+// (instrumented) code under test starts, and every lock / channel / WaitGroup operation it performs,
+// is scheduled by the seeded scheduler and replays. The schedule seed is derived from the workload's
+// seed and a stable key of the call (not its position), so shrinking a workload keeps schedules.
+func UnderSim(t *testing.T, cfg simrt.Config, key string, fn func()) (class, detail string) {
+	c := cfg
+	c.Replay = nil
+	c.Trace = false
+	h := uint64(14695981039346656037)
+	for i := 0; i < len(key); i++ {
+		h ^= uint64(key[i])
+		h *= 1099511628211
+	}
+	c.Seed = cfg.Seed ^ h
+	c.MaxSteps, c.FairSteps = 2000000, 2000000
+	res := simrt.Run(t, c, func(s *simrt.Sim) { s.Spawn(fn) })
+	switch {
+	case res.Infra != "":
+		return "infra", res.Infra
+	case res.Panic != "":
+		return "panic", res.Panic
+	case res.Hang && res.ClientsDone:
+		return "leak", fmt.Sprintf("%s returned but goroutines it started never finish: %v", key, res.Leftover)
+	case res.Hang:
+		return "hang", fmt.Sprintf("%s never returns: %v", key, res.Leftover)
+	case res.Livelock:
+		return "livelock", key + " did not finish within the step budget"
+	}
+	SimSteps += res.Steps
+	SimTasks += res.Tasks
+	return "", ""
+}
+
+// SimSteps / SimTasks accumulate scheduler activity for evidence.
+var SimSteps, SimTasks int
